@@ -180,9 +180,13 @@ class TapeRecorder(object):
         :param data: Data to record (it needs to be serializable)
         :type data: Any
         """
-        self._assert_recording()
-        _logger.debug(u'Recording data for recording id {} under key {}'.format(self._active_recording.id, key))
-        self._active_recording[key] = data
+        # Keep a local reference, the recording can be discarded at any moment by an interception running on another
+        # thread, in which case there is nothing to record into
+        recording = self._active_recording
+        if recording is None:
+            return
+        _logger.debug(u'Recording data for recording id {} under key {}'.format(recording.id, key))
+        recording[key] = data
 
     def _assert_recording(self):
         """
@@ -845,7 +849,11 @@ class TapeRecorder(object):
                     self._record_data(interception_key, {'exception': ex})
                 raise
 
-        if interception_key is not None:
+        # The recording may have been discarded while the intercepted function was running (by the function itself or
+        # by an interception on another thread), in such case there is nothing to capture
+        recording_parameters = self._active_recording_parameters
+
+        if interception_key is not None and recording_parameters is not None:
             try:
                 recorded_result = data_handler.prepare_input_for_recording(interception_key, result, args, kwargs) \
                     if data_handler else result
@@ -858,7 +866,7 @@ class TapeRecorder(object):
                 self.discard_recording()
                 return result
 
-            if self._active_recording_parameters.copy_data_on_intercepion:
+            if recording_parameters.copy_data_on_intercepion:
                 try:
                     recorded_result = pickle_copy(recorded_result)
                 except Exception as ex:
